@@ -11,8 +11,14 @@ var (
 )
 
 func AssignValue(src, dst reflect.Value) error {
+	if !dst.IsValid() {
+		return fmt.Errorf("invalid dst: required a pointer, got nil")
+	}
 	if dst.Type().Kind() != reflect.Ptr {
 		return fmt.Errorf("invalid dst type. required pointer type: %T", dst.Type())
+	}
+	if dst.IsNil() {
+		return fmt.Errorf("invalid dst: nil pointer of type %s", dst.Type())
 	}
 	casted, err := castValue(dst.Elem().Type(), src)
 	if err != nil {
@@ -22,12 +28,56 @@ func AssignValue(src, dst reflect.Value) error {
 	return nil
 }
 
+// castValue converts v to a value that can be assigned to a variable of type t, or reports
+// why it cannot: the result of the per-kind conversions is checked here, so that a named type,
+// a pointer, an interface with methods or a kind without a conversion is an error and not a
+// panic in reflect.Value.Set.
 func castValue(t reflect.Type, v reflect.Value) (reflect.Value, error) {
+	ret, err := castValueByKind(t, v)
+	if err != nil {
+		return nilValue, err
+	}
+	if !ret.IsValid() {
+		return reflect.Zero(t), nil
+	}
+	rt := ret.Type()
+	if rt.AssignableTo(t) {
+		return ret, nil
+	}
+	if rt.Kind() == t.Kind() && rt.ConvertibleTo(t) {
+		switch t.Kind() {
+		case reflect.Struct, reflect.Array, reflect.Ptr, reflect.Interface, reflect.Func, reflect.Chan:
+		default:
+			// a named type of the same kind (type Celsius float64, type IDs []int)
+			return ret.Convert(t), nil
+		}
+	}
+	return nilValue, fmt.Errorf("failed to cast to %s from %s", t, rt)
+}
+
+func castValueByKind(t reflect.Type, v reflect.Value) (reflect.Value, error) {
 	if !v.IsValid() {
 		// null: the zero value of the destination
 		return reflect.Zero(t), nil
 	}
 	switch t.Kind() {
+	case reflect.Ptr:
+		for v.IsValid() && v.Kind() == reflect.Interface {
+			v = v.Elem()
+		}
+		if !v.IsValid() || (v.Kind() == reflect.Ptr && v.IsNil()) {
+			return reflect.Zero(t), nil
+		}
+		if v.Type().AssignableTo(t) {
+			return v, nil
+		}
+		elem, err := castValue(t.Elem(), v)
+		if err != nil {
+			return nilValue, err
+		}
+		p := reflect.New(t.Elem())
+		p.Elem().Set(elem)
+		return p, nil
 	case reflect.Int:
 		vv, err := castInt(v)
 		if err != nil {
@@ -352,7 +402,7 @@ func castArray(t reflect.Type, v reflect.Value) (reflect.Value, error) {
 	if kind != reflect.Slice && kind != reflect.Array {
 		return nilValue, fmt.Errorf("failed to cast to array from %s", kind)
 	}
-	if t.Elem() == v.Type().Elem() {
+	if t == v.Type() {
 		return v, nil
 	}
 	if t.Len() != v.Len() {
@@ -380,7 +430,7 @@ func castSlice(t reflect.Type, v reflect.Value) (reflect.Value, error) {
 	if kind != reflect.Slice && kind != reflect.Array {
 		return nilValue, fmt.Errorf("failed to cast to slice from %s", kind)
 	}
-	if t.Elem() == v.Type().Elem() {
+	if kind == reflect.Slice && t.Elem() == v.Type().Elem() {
 		return v, nil
 	}
 	ret := reflect.MakeSlice(t, v.Len(), v.Len())
@@ -441,7 +491,7 @@ func castStruct(t reflect.Type, v reflect.Value) (reflect.Value, error) {
 			}
 			fieldName := k.String()
 			field, ok := t.FieldByName(fieldName)
-			if ok {
+			if ok && field.PkgPath == "" && len(field.Index) == 1 {
 				value, err := castValue(field.Type, iter.Value())
 				if err != nil {
 					return nilValue, err
@@ -452,8 +502,18 @@ func castStruct(t reflect.Type, v reflect.Value) (reflect.Value, error) {
 		return ret, nil
 	case reflect.Struct:
 		for i := 0; i < v.Type().NumField(); i++ {
-			name := v.Type().Field(i).Name
-			ret.FieldByName(name).Set(v.FieldByName(name))
+			sf := v.Type().Field(i)
+			field, ok := t.FieldByName(sf.Name)
+			if !ok || sf.PkgPath != "" || field.PkgPath != "" || len(field.Index) != 1 {
+				// no such member in the destination (members promoted from embedded structs are
+				// not addressed), or not exported on one side
+				continue
+			}
+			value, err := castValue(field.Type, v.Field(i))
+			if err != nil {
+				return nilValue, err
+			}
+			ret.FieldByName(sf.Name).Set(value)
 		}
 		return ret, nil
 	case reflect.Interface:
